@@ -51,6 +51,15 @@ missed = [r for r in rows if r[2] != 1]
 print(f"{len(rows) - len(missed)}/{len(rows)} seeded changes caught by their targeted quick check; missed: {[r[0] for r in missed]}")
 print("replays that do not reproduce:", [r[0] for r in rows if r[5].startswith("REPLAY")])
 if a.md:
+    if a.only and os.path.exists(a.md):
+        # partial re-run: keep the rows of the changes that were not re-run
+        have = {r[0] for r in rows}
+        for line in open(a.md):
+            c = [x.strip() for x in line.strip().strip("|").split("|")]
+            if line.startswith("| S") and len(c) == 6 and c[0] not in have and os.path.isdir(os.path.join(ROOT, "seeded", c[0])):
+                rows.append((c[0], c[1], int(c[2]) if c[2].lstrip("-").isdigit() else c[2], c[3], c[4], c[5]))
+        rows.sort(key=lambda r: r[0])
+        missed = [r for r in rows if r[2] != 1]
     with open(a.md, "w") as f:
         f.write("# Seeded changes (written by independent sub-agents that saw only the property text)\n\nRe-run with `tools/run_seeded.py --md seeded/RESULTS.md` "
                 f"(quick tier, VERIF_SEED={a.seed}). Every change keeps the repository's 1 448 tests green (see each meta.json).\n\n"
